@@ -62,6 +62,40 @@ hx_find_all(int32 fid, int32 stag, int32 sref, int32 dir, int32 *o, int32 max, i
     return n;
 }
 
+/* Enumerate the data elements matching tag/ref (0 = wildcard) by Hstartread + Hnextread(DF_CURRENT).
+ * Stores (tag, ref, offset, length) as reported by Hinquire; returns the count, -2 if not terminating. */
+int32
+hx_nextread_all(int32 fid, int32 stag, int32 sref, int32 *o, int32 max, int32 limit)
+{
+    int32 aid = Hstartread(fid, (uint16)stag, (uint16)sref);
+    int32 n   = 0;
+    if (aid == FAIL)
+        return 0;
+    for (;;) {
+        uint16 t = 0, r = 0;
+        int32  len = 0, off = 0;
+        if (Hinquire(aid, NULL, &t, &r, &len, &off, NULL, NULL, NULL) == FAIL) {
+            Hendaccess(aid);
+            return -3;
+        }
+        if (n < max) {
+            o[4 * n + 0] = t;
+            o[4 * n + 1] = r;
+            o[4 * n + 2] = off;
+            o[4 * n + 3] = len;
+        }
+        n++;
+        if (n > limit) {
+            Hendaccess(aid);
+            return -2;
+        }
+        if (Hnextread(aid, (uint16)stag, (uint16)sref, DF_CURRENT) == FAIL)
+            break;
+    }
+    Hendaccess(aid);
+    return n;
+}
+
 /* Hputelement unless the freshly allocated ref is 0 ("no ref free"): every real caller checks
  * the allocator's result before using it.  Returns -3 when skipped. */
 int32
